@@ -63,6 +63,15 @@ class RModel(PlainModel):
         node = self.module.consts.get(name)
         if isinstance(node, ast.Name):
             return self.engine.lookup(node.id, St())   # alias like `unicode = str`
+        if isinstance(node, ast.Tuple) and all(isinstance(e, (ast.Name, ast.Attribute, ast.Call)) for e in node.elts):
+            # a module-level tuple of types (hoisted out of an isinstance test): evaluate its elements where they stand
+            vals = []
+            for e in node.elts:
+                rs = self.engine.ev(e, St())
+                if len(rs) != 1 or rs[0].exc is not None:
+                    return None
+                vals.append(rs[0].val)
+            return ('tuple', tuple(vals))
         return None
 
     def call(self, f, args, kws, st, node):
